@@ -10,6 +10,17 @@ import (
 	"github.com/anz-bank/sysl/pkg/sysl"
 )
 
+// sortedKeys returns the keys of a map in sorted order, so that the rows of the schema do
+// not depend on Go's map iteration order.
+func sortedKeys[V any](m map[string]V) []string {
+	keys := make([]string, 0, len(m))
+	for k := range m {
+		keys = append(keys, k)
+	}
+	sort.Strings(keys)
+	return keys
+}
+
 // tuple is a type alias for the ugly common map type.
 type tuple map[string]interface{}
 
@@ -85,18 +96,18 @@ func normalizeApp(ctx context.Context, s *Schema, app *sysl.Application) error {
 		normalizeMixin(s, app, mixin)
 	}
 
-	for _, ep := range app.Endpoints {
-		if err := normalizeEndpoint(ctx, s, app, ep); err != nil {
+	for _, epName := range sortedKeys(app.Endpoints) {
+		if err := normalizeEndpoint(ctx, s, app, app.Endpoints[epName]); err != nil {
 			return err
 		}
 	}
 
-	for typeName, typ := range app.Types {
-		normalizeType(s, app, typ, typeName)
+	for _, typeName := range sortedKeys(app.Types) {
+		normalizeType(s, app, app.Types[typeName], typeName)
 	}
 
-	for viewName, view := range app.Views {
-		normalizeView(s, app, view, viewName)
+	for _, viewName := range sortedKeys(app.Views) {
+		normalizeView(s, app, app.Views[viewName], viewName)
 	}
 
 	return nil
@@ -369,8 +380,8 @@ func normalizeType(s *Schema, app *sysl.Application, typ *sysl.Type, typeName st
 		s.Enum = append(s.Enum, e)
 	}
 
-	for fieldName, field := range fields {
-		normalizeField(s, app, typeName, field, fieldName)
+	for _, fieldName := range sortedKeys(fields) {
+		normalizeField(s, app, typeName, fields[fieldName], fieldName)
 	}
 
 	normalizeTypeMeta(s, app, typ, typeName)
@@ -423,7 +434,8 @@ func normalizeAppMeta(s *Schema, app *sysl.Application) {
 	}
 
 	annos := annos(app.Attrs)
-	for annoName, annoValue := range annos {
+	for _, annoName := range sortedKeys(annos) {
+		annoValue := annos[annoName]
 		s.Anno.App = append(s.Anno.App, AppAnnotation{
 			AppName:      app.Name.Part,
 			AppAnnoName:  annoName,
@@ -461,7 +473,8 @@ func normalizeMixinMeta(s *Schema, app *sysl.Application, mixin *sysl.Applicatio
 	}
 
 	annos := annos(mixin.Attrs)
-	for annoName, annoValue := range annos {
+	for _, annoName := range sortedKeys(annos) {
+		annoValue := annos[annoName]
 		s.Anno.Mixin = append(s.Anno.Mixin, MixinAnnotation{
 			AppName:        app.Name.Part,
 			MixinName:      mixin.Name.Part,
@@ -502,7 +515,8 @@ func normalizeEndpointMeta(s *Schema, app *sysl.Application, ep *sysl.Endpoint) 
 	}
 
 	annos := annos(ep.Attrs)
-	for annoName, annoValue := range annos {
+	for _, annoName := range sortedKeys(annos) {
+		annoValue := annos[annoName]
 		s.Anno.Ep = append(s.Anno.Ep, EndpointAnnotation{
 			AppName:     app.Name.Part,
 			EpName:      ep.Name,
@@ -543,7 +557,8 @@ func normalizeEventMeta(s *Schema, app *sysl.Application, event *sysl.Endpoint) 
 	}
 
 	annos := annos(event.Attrs)
-	for annoName, annoValue := range annos {
+	for _, annoName := range sortedKeys(annos) {
+		annoValue := annos[annoName]
 		s.Anno.Event = append(s.Anno.Event, EventAnnotation{
 			AppName:        app.Name.Part,
 			EventName:      event.Name,
@@ -591,7 +606,8 @@ func normalizeStatementMeta(
 	}
 
 	annos := annos(stmt.Attrs)
-	for annoName, annoValue := range annos {
+	for _, annoName := range sortedKeys(annos) {
+		annoValue := annos[annoName]
 		s.Anno.Stmt = append(s.Anno.Stmt, StatementAnnotation{
 			AppName:       app.Name.Part,
 			EpName:        ep.Name,
@@ -647,7 +663,8 @@ func normalizeParamMeta(
 	}
 
 	annos := annos(param.Attrs)
-	for annoName, annoValue := range annos {
+	for _, annoName := range sortedKeys(annos) {
+		annoValue := annos[annoName]
 		s.Anno.Param = append(s.Anno.Param, ParamAnnotation{
 			AppName:        app.Name.Part,
 			EpName:         ep.Name,
@@ -697,7 +714,8 @@ func normalizeTypeMeta(s *Schema, app *sysl.Application, typ *sysl.Type, typeNam
 	}
 
 	annos := annos(typ.Attrs)
-	for annoName, annoValue := range annos {
+	for _, annoName := range sortedKeys(annos) {
+		annoValue := annos[annoName]
 		s.Anno.Type = append(s.Anno.Type, TypeAnnotation{
 			AppName:       app.Name.Part,
 			TypeName:      typeName,
@@ -739,7 +757,8 @@ func normalizeFieldMeta(s *Schema, app *sysl.Application, typeName string, field
 	}
 
 	annos := annos(field.Attrs)
-	for annoName, annoValue := range annos {
+	for _, annoName := range sortedKeys(annos) {
+		annoValue := annos[annoName]
 		s.Anno.Field = append(s.Anno.Field, FieldAnnotation{
 			AppName:        app.Name.Part,
 			TypeName:       typeName,
@@ -783,7 +802,8 @@ func normalizeViewMeta(s *Schema, app *sysl.Application, view *sysl.View, viewNa
 	}
 
 	annos := annos(view.Attrs)
-	for annoName, annoValue := range annos {
+	for _, annoName := range sortedKeys(annos) {
+		annoValue := annos[annoName]
 		s.Anno.View = append(s.Anno.View, ViewAnnotation{
 			AppName:       app.Name.Part,
 			ViewName:      viewName,
